@@ -413,12 +413,21 @@ func (f *Flooder) floodAdvertisementEncrypted(
 		fwdDisplayName = ""
 	}
 
+	// Each hop adds one to the metric: forward the metric we stored ourselves
+	// (received metric + 1), exactly as SendFullTable does for stored routes, so
+	// that the next agent records its own distance and not ours.
+	fwdRoutes := make([]protocol.Route, len(routes))
+	for i, r := range routes {
+		r.Metric++
+		fwdRoutes[i] = r
+	}
+
 	// Build the advertise payload with extended path
 	adv := &protocol.RouteAdvertise{
 		OriginAgent:       originAgent,
 		OriginDisplayName: fwdDisplayName,
 		Sequence:          sequence,
-		Routes:            routes,
+		Routes:            fwdRoutes,
 		EncPath:           fwdEncPath,
 		SeenBy:            seenBy,
 	}
